@@ -363,3 +363,366 @@ func c18Ports(r *core.Run, prog *core.Program) {
 	r.Count("shared_object_kinds", len(kinds))
 	r.Count("port_list_obligations", n)
 }
+
+// ---- ROLES: the shared object's own module versus its instantiation -----------------------------
+//
+// For the FIFO-like shared objects (queue, stack, uart, kbd) the module written by
+// K_instance.Write_verilog gets one group of ports per entry of the Senders / Receivers lists it
+// computes from the opcodes of each attached processor, while the top level connects, for the same
+// processor, one group of wires per opcode-presence test of GetPerProcPortsHeader. The rule executes
+// the list-building code of Write_verilog concretely, for ONE attached processor, under every subset A
+// of the opcode names the header tests (a finite domain: at most 2^3 assumptions), counting the entries
+// appended, and requires that count to equal |A| — the number of groups the header emits under A.
+
+type rval struct {
+	known bool
+	str   string
+	isStr bool
+	num   string // constant value as text (for comparisons between named constants)
+	op    bool   // an opcode of the assumed set; str is its name
+}
+
+type rolesInterp struct {
+	info   *types.Info
+	decls  map[types.Object]*ast.FuncDecl
+	ops    []string // assumed opcode names, sorted
+	count  int
+	steps  int
+	failed string
+}
+
+type rsig int
+
+const (
+	rNormal rsig = iota
+	rContinue
+	rBreak
+	rReturn
+)
+
+func (ri *rolesInterp) eval(e ast.Expr, env map[types.Object]rval) rval {
+	if tv, ok := ri.info.Types[e]; ok && tv.Value != nil {
+		if s, ok := constStr(ri.info, e); ok {
+			return rval{known: true, isStr: true, str: s}
+		}
+		return rval{known: true, num: tv.Value.ExactString()}
+	}
+	switch x := ast.Unparen(e).(type) {
+	case *ast.Ident:
+		if v, ok := env[ri.info.ObjectOf(x)]; ok {
+			return v
+		}
+	case *ast.CallExpr:
+		c := core.CalleeOf(ri.info, x)
+		if c == nil {
+			return rval{}
+		}
+		if c.Name() == "Op_get_name" {
+			if sel, ok := ast.Unparen(x.Fun).(*ast.SelectorExpr); ok {
+				if v := ri.eval(sel.X, env); v.known && v.op {
+					return rval{known: true, isStr: true, str: v.str}
+				}
+			}
+			return rval{}
+		}
+		if c.Name() == "HasOp" && len(x.Args) == 1 {
+			if a := ri.eval(x.Args[0], env); a.known && a.isStr {
+				for _, o := range ri.ops {
+					if o == a.str {
+						return rval{known: true, num: "true"}
+					}
+				}
+				return rval{known: true, num: "false"}
+			}
+		}
+		if fd, ok := ri.decls[c]; ok && ri.steps < 2000 {
+			// a helper of the package: run it with its parameters bound
+			cenv := map[types.Object]rval{}
+			idx := 0
+			for _, f := range fd.Type.Params.List {
+				for _, n := range f.Names {
+					if idx < len(x.Args) {
+						cenv[ri.info.ObjectOf(n)] = ri.eval(x.Args[idx], env)
+					}
+					idx++
+				}
+			}
+			saved := ri.count
+			sig, ret := ri.exec(fd.Body.List, cenv)
+			ri.count = saved // a helper that classifies does not build the lists
+			if sig == rReturn {
+				return ret
+			}
+		}
+	case *ast.BinaryExpr:
+		a, b := ri.eval(x.X, env), ri.eval(x.Y, env)
+		switch x.Op {
+		case token.EQL, token.NEQ:
+			if a.known && b.known && a.isStr == b.isStr {
+				eq := (a.isStr && a.str == b.str) || (!a.isStr && a.num == b.num && a.num != "")
+				if x.Op == token.NEQ {
+					eq = !eq
+				}
+				if eq {
+					return rval{known: true, num: "true"}
+				}
+				return rval{known: true, num: "false"}
+			}
+			// an equality the assumptions say nothing about (soId == soIndex, procId == …): the
+			// interpretation follows the one attached processor / the object being rendered, so
+			// identities between unknowns hold and inequalities do not
+			if x.Op == token.EQL {
+				return rval{known: true, num: "true"}
+			}
+			return rval{known: true, num: "false"}
+		case token.LAND:
+			if (a.known && a.num == "false") || (b.known && b.num == "false") {
+				return rval{known: true, num: "false"}
+			}
+			if a.known && b.known {
+				return rval{known: true, num: "true"}
+			}
+			// unknown && known-true: depends on the unknown part — treated as true (one attached processor)
+			return rval{known: true, num: "true"}
+		case token.LOR:
+			if (a.known && a.num == "true") || (b.known && b.num == "true") {
+				return rval{known: true, num: "true"}
+			}
+			if a.known && b.known {
+				return rval{known: true, num: "false"}
+			}
+		}
+	}
+	return rval{}
+}
+
+func (ri *rolesInterp) exec(list []ast.Stmt, env map[types.Object]rval) (rsig, rval) {
+	for _, st := range list {
+		ri.steps++
+		if ri.steps > 5000 {
+			ri.failed = "step budget"
+			return rReturn, rval{}
+		}
+		switch x := st.(type) {
+		case *ast.BlockStmt:
+			if s, v := ri.exec(x.List, env); s != rNormal {
+				return s, v
+			}
+		case *ast.LabeledStmt:
+			if s, v := ri.exec([]ast.Stmt{x.Stmt}, env); s != rNormal {
+				return s, v
+			}
+		case *ast.ReturnStmt:
+			if len(x.Results) >= 1 {
+				return rReturn, ri.eval(x.Results[0], env)
+			}
+			return rReturn, rval{}
+		case *ast.BranchStmt:
+			switch x.Tok {
+			case token.CONTINUE:
+				return rContinue, rval{}
+			case token.BREAK:
+				return rBreak, rval{}
+			}
+		case *ast.AssignStmt:
+			for i, l := range x.Lhs {
+				if i >= len(x.Rhs) {
+					break
+				}
+				if call, ok := ast.Unparen(x.Rhs[i]).(*ast.CallExpr); ok {
+					if id, ok := call.Fun.(*ast.Ident); ok && id.Name == "append" {
+						if sl, ok := ri.info.TypeOf(l).Underlying().(*types.Slice); ok {
+							if b, ok := sl.Elem().Underlying().(*types.Basic); ok && b.Info()&types.IsString != 0 {
+								ri.count += len(call.Args) - 1
+							}
+						}
+						continue
+					}
+				}
+				if id, ok := l.(*ast.Ident); ok {
+					env[ri.info.ObjectOf(id)] = ri.eval(x.Rhs[i], env)
+				}
+			}
+		case *ast.IfStmt:
+			if x.Init != nil {
+				ri.exec([]ast.Stmt{x.Init}, env)
+			}
+			c := ri.eval(x.Cond, env)
+			switch {
+			case c.known && c.num == "false":
+				if x.Else != nil {
+					if s, v := ri.exec([]ast.Stmt{x.Else}, env); s != rNormal {
+						return s, v
+					}
+				}
+			default: // true, or unknown (the attached processor / the object being rendered)
+				if s, v := ri.exec(x.Body.List, env); s != rNormal {
+					return s, v
+				}
+			}
+		case *ast.SwitchStmt:
+			if x.Init != nil {
+				ri.exec([]ast.Stmt{x.Init}, env)
+			}
+			var tag rval
+			if x.Tag != nil {
+				tag = ri.eval(x.Tag, env)
+				if !tag.known {
+					continue // a switch on something unknown builds no list here
+				}
+			}
+			var def *ast.CaseClause
+			done := false
+			for _, cl := range x.Body.List {
+				cc := cl.(*ast.CaseClause)
+				if len(cc.List) == 0 {
+					def = cc
+					continue
+				}
+				hit := false
+				for _, ce := range cc.List {
+					v := ri.eval(ce, env)
+					if x.Tag == nil {
+						if v.known && v.num == "true" {
+							hit = true
+						}
+					} else if v.known && v.isStr == tag.isStr && ((v.isStr && v.str == tag.str) || (!v.isStr && v.num == tag.num)) {
+						hit = true
+					}
+				}
+				if hit {
+					done = true
+					s, v := ri.exec(cc.Body, env)
+					if s == rBreak {
+						s = rNormal
+					}
+					if s != rNormal {
+						return s, v
+					}
+					break
+				}
+			}
+			if !done && def != nil {
+				s, v := ri.exec(def.Body, env)
+				if s == rBreak {
+					s = rNormal
+				}
+				if s != rNormal {
+					return s, v
+				}
+			}
+		case *ast.RangeStmt:
+			if f := core.FieldOf(ri.info, x.X); f != nil && f.Name() == "Op" {
+				var vobj types.Object
+				if id, ok := x.Value.(*ast.Ident); ok {
+					vobj = ri.info.ObjectOf(id)
+				}
+				for _, name := range ri.ops {
+					if vobj != nil {
+						env[vobj] = rval{known: true, op: true, str: name}
+					}
+					s, v := ri.exec(x.Body.List, env)
+					if s == rBreak {
+						break
+					}
+					if s == rReturn {
+						return s, v
+					}
+				}
+				continue
+			}
+			// any other collection: one element (the attached processor, the link to this object)
+			s, v := ri.exec(x.Body.List, env)
+			if s == rReturn {
+				return s, v
+			}
+		case *ast.ForStmt:
+			s, v := ri.exec(x.Body.List, env)
+			if s == rReturn {
+				return s, v
+			}
+		}
+	}
+	return rNormal, rval{}
+}
+
+func c18Roles(r *core.Run, prog *core.Program) {
+	bm := prog.Pkg("pkg/bondmachine")
+	if bm == nil {
+		return
+	}
+	info := bm.TypesInfo
+	decls := map[types.Object]*ast.FuncDecl{}
+	core.FuncDecls(bm, func(_ *ast.File, fd *ast.FuncDecl) {
+		if o := info.Defs[fd.Name]; o != nil {
+			decls[o] = fd
+		}
+	})
+	n := 0
+	core.FuncDecls(bm, func(_ *ast.File, fd *ast.FuncDecl) {
+		rn := core.RecvTypeName(info, fd)
+		if fd.Name.Name != "Write_verilog" || !strings.HasSuffix(rn, "_instance") {
+			return
+		}
+		// only objects that hand Senders/Receivers lists to a FIFO template
+		uses := false
+		ast.Inspect(fd.Body, func(m ast.Node) bool {
+			if as, ok := m.(*ast.AssignStmt); ok {
+				for _, l := range as.Lhs {
+					if sel, ok := l.(*ast.SelectorExpr); ok && (sel.Sel.Name == "Senders" || sel.Sel.Name == "Receivers") {
+						uses = true
+					}
+				}
+			}
+			return true
+		})
+		if !uses {
+			return
+		}
+		// the opcode names the header tests
+		var hdr *ast.FuncDecl
+		core.FuncDecls(bm, func(_ *ast.File, f2 *ast.FuncDecl) {
+			if f2.Name.Name == "GetPerProcPortsHeader" && core.RecvTypeName(info, f2) == rn {
+				hdr = f2
+			}
+		})
+		if hdr == nil {
+			return
+		}
+		items, _ := portsOf(info, hdr, "list", nil)
+		var tested []string
+		for c := range items {
+			for _, part := range strings.Split(c, "&") {
+				if strings.HasPrefix(part, "op:") {
+					tested = append(tested, strings.TrimPrefix(part, "op:"))
+				}
+			}
+		}
+		sort.Strings(tested)
+		if len(tested) == 0 || len(tested) > 3 {
+			return
+		}
+		for mask := 0; mask < 1<<len(tested); mask++ {
+			var ops []string
+			for i, t := range tested {
+				if mask&(1<<i) != 0 {
+					ops = append(ops, t)
+				}
+			}
+			ri := &rolesInterp{info: info, decls: decls, ops: ops}
+			ri.exec(fd.Body.List, map[types.Object]rval{})
+			n++
+			inst := fmt.Sprintf("C18/ROLES:%s:{%s}", rn, strings.Join(ops, ","))
+			pos := prog.Pos(fd.Pos())
+			switch {
+			case ri.failed != "":
+				r.Undecided("C18/ROLES", inst, pos, "list-building code not interpretable: "+ri.failed)
+			case ri.count == len(ops):
+				r.OK("C18/ROLES", inst, pos, fmt.Sprintf("%d port group(s) in the module and in the instantiation for a processor with these opcodes", len(ops)))
+			default:
+				r.Violation("C18/ROLES", inst, pos, fmt.Sprintf("for an attached processor whose opcode set contains {%s}, %s.Write_verilog gives the shared object's module %d sender/receiver port group(s), while GetPerProcPortsHeader makes the top level connect %d group(s) of wires to it (one per opcode present): the instance has a different number of ports than the module it instantiates", strings.Join(ops, ","), rn, ri.count, len(ops)))
+			}
+		}
+	})
+	r.Count("role_assumptions", n)
+}
